@@ -1,6 +1,7 @@
 //! Conformance harness of the fclones verification machinery (built with --cfg fclones_verif).
 mod glob;
 mod quote;
+mod report;
 mod sem;
 
 fn main() {
@@ -15,6 +16,7 @@ fn main() {
         "sem-stress" => sem::stress(rest),
         "glob" => glob::run(rest),
         "quote" => quote::run(rest),
+        "report" => report::run(rest),
         "selector" => glob::selector(rest),
         other => {
             eprintln!("unknown command {other}");
